@@ -54,7 +54,7 @@ IRC_REQUIRED = ['ctor_' + n for n in IRC_FUNCS] + [
     'irc_line_event_observed', 'irc_roundtrip_evaluated', 'irc_arg_with_space', 'irc_arg_with_colon', 'irc_arg_with_cr',
     'irc_arg_with_lf', 'irc_arg_with_nul', 'irc_arg_empty', 'irc_arg_non_ascii', 'irc_arg_bytes', 'irc_arg_none',
     'irc_hostile_command', 'irc_hostile_prefix', 'irc_prefix_nick_user_host', 'irc_late_args_mutation',
-    'irc_all_command_functions_called', 'irc_benign_call_serialised', 'irc_same_line_received_twice', 'irc_numeric_line_received_twice']
+    'irc_all_command_functions_called', 'irc_benign_call_serialised', 'irc_same_line_received_twice', 'irc_numeric_line_received_twice', 'irc_prefix_given_as_object']
 REQUIRED = LINE_REQUIRED + IRC_REQUIRED
 REQUIRED_OBLIGATIONS = ['LINES', 'TAIL_HELD', 'ISOLATION', 'ONE_LINE', 'ROUNDTRIP']
 WORKER_TIMEOUT = {'quick': 300, 'thorough': 1500}
@@ -506,6 +506,16 @@ def one_line_problem(data, nl, cr, what):
     return None
 
 
+class _Rendered:
+    """An object whose text form is the prefix (what a User or Server object of an application looks like to Message)."""
+
+    def __init__(self, text):
+        self.text = text
+
+    def __str__(self):
+        return self.text
+
+
 def run_irc_case(case):
     """-> dict(problems=[(clause, detail, dedup)], triggers=set, cmd_idx=tuple, stage=str, marks=set, oblig=dict)."""
     h = harness()
@@ -522,6 +532,10 @@ def run_irc_case(case):
             kw = {}
             if case.get('prefix') is not None:
                 kw['prefix'] = case['prefix']
+                if case.get('prefix_obj'):
+                    # a prefix VALUE need not be a str: a user / server object that renders itself (nick!user@host) is just as usual
+                    marks.add('irc_prefix_given_as_object')
+                    kw['prefix'] = _Rendered(case['prefix'])
             msg = h['Message'](case['command'], *args, **kw)
             ev = h['request'](msg)
         else:
@@ -540,7 +554,7 @@ def run_irc_case(case):
     res['stage'] = 'serialiser'
     own_args = list(msg.args)
     own_cmd = str(msg.command)
-    own_prefix = msg.prefix
+    own_prefix = None if msg.prefix is None else str(msg.prefix)      # (what goes on the wire)
     if ctor == 'Message':
         # the message's fields are what the caller gave
         given = [_dec(a) for a in args if a is not None] + [_dec(a) for a in case.get('late', [])]
@@ -819,6 +833,9 @@ def irc_matrix():
             for hs in HOSTILE:
                 # fields changed after construction: str()/bytes() re-validate
                 cases.append({'kind': 'irc', 'ctor': 'Message', 'command': 'PRIVMSG', 'prefix': prefix, 'args': list(base), 'late': [hs]})
+    for hs in HOSTILE + ['nick!user@host', 'irc.example.org']:
+        cases.append({'kind': 'irc', 'ctor': 'Message', 'command': 'NOTICE', 'prefix': hs, 'prefix_obj': True, 'args': ['nick', 'Hello World']})
+        cases.append({'kind': 'irc', 'ctor': 'Message', 'command': '001', 'prefix': hs, 'prefix_obj': True, 'args': []})
     for hs in HOSTILE:
         cases.append({'kind': 'irc', 'ctor': 'Message', 'command': hs, 'prefix': None, 'args': ['nick', 'Hello World']})
         cases.append({'kind': 'irc', 'ctor': 'Message', 'command': 'NOTICE', 'prefix': hs, 'args': ['nick', 'Hello World']})
@@ -886,6 +903,8 @@ def gen_irc_case(rng):
     if ctor == 'Message':
         case['command'] = rng.choice(COMMANDS) if rng.random() < 0.8 else gen_str(rng, False)
         case['prefix'] = rng.choice(PREFIXES) if rng.random() < 0.85 else gen_str(rng, False)
+        if case['prefix'] is not None and rng.random() < 0.25:
+            case['prefix_obj'] = True
         if rng.random() < 0.15:
             case['late'] = [gen_str(rng, True) for _ in range(rng.choice([1, 1, 2]))]
     return case
